@@ -45,7 +45,8 @@ Definition partial_path (d : dimport) : string :=
 
 Record centry : Type := {           (* a registered configurable *)
   ce_sel : string; ce_obj : nat; ce_method : bool;
-  ce_src : option (dimport * string) }.   (* import_source: (statement, attribute path) *)
+  ce_src : option (dimport * string);     (* import_source: (statement, attribute path) *)
+  ce_home : string * string }.            (* the object's own (__module__, __qualname__): used when it has no import source *)
 
 Record dstate : Type := {
   ds_reg : list centry;                          (* registration order *)
@@ -132,7 +133,7 @@ Definition register_chain (reg : list centry) (d : dimport) (attr_names : list s
         let inner := removelast (tl names) in
         let module := join_dot (partial_path d :: inner) in
         let sel := (module ++ "." ++ last names "")%string in
-        let entry := {| ce_sel := sel; ce_obj := i; ce_method := is_method; ce_src := Some (import_source d names) |} in
+        let entry := {| ce_sel := sel; ce_obj := i; ce_method := is_method; ce_src := Some (import_source d names); ce_home := ("", "") |} in
         let prev := match find_obj i reg with Some e => [(ce_sel e, sel)] | None => [] end in
         match find_sel sel reg with
         | Some e => if Nat.eqb (ce_obj e) i then DOk (replace_entry sel entry reg, sel, prev) else DErr "ValueError"
@@ -151,7 +152,7 @@ Definition register_chain (reg : list centry) (d : dimport) (attr_names : list s
                 let sel := (csel ++ "." ++ last attr_names "")%string in
                 match find_obj i reg1 with
                 | Some _ => DOk (reg1, sel, rp)
-                | None => DOk (reg1 ++ [{| ce_sel := sel; ce_obj := i; ce_method := true; ce_src := Some (import_source d attr_names) |}], sel, rp)
+                | None => DOk (reg1 ++ [{| ce_sel := sel; ce_obj := i; ce_method := true; ce_src := Some (import_source d attr_names); ce_home := ("", "") |}], sel, rp)
                 end
             end
         end
@@ -303,7 +304,11 @@ Definition config_header (s : dstate) (refs : list ((string * string) * string *
   let dynamic := existsb (fun d => String.eqb (d_module d) "__gin__.dynamic_registration") (ds_imports s) in
   let st1 := if negb dynamic then st0 else fold_left (fun st sel =>
                 match find_sel sel (ds_reg s) with
-                | Some e => match ce_src e with Some (d, _) => add_import st (to_simport d) | None => st end
+                | Some e => match ce_src e with
+                            | Some (d, _) => add_import st (to_simport d)
+                            | None => let m := fst (ce_home e) in
+                                      add_import st {| i_module := m; i_from := contains_char dot m; i_alias := None |}
+                            end
                 | None => st
                 end) needed st0 in
   let '(imps, msel, _) := st1 in
@@ -328,7 +333,11 @@ Definition config_header (s : dstate) (refs : list ((string * string) * string *
                                                | Some m => (m ++ "." ++ name)%string
                                                | None => "?"
                                                end
-                                           | None => "?"
+                                           | None =>
+                                               match (fix go (l : list (string * string)) := match l with [] => None | (k, v) :: r => if String.eqb k (fst (ce_home c)) then Some v else go r end) msel with
+                                               | Some m => (m ++ "." ++ snd (ce_home c))%string
+                                               | None => "?"
+                                               end
                                            end
                                | None => "?"
                                end in
@@ -338,9 +347,9 @@ Definition config_header (s : dstate) (refs : list ((string * string) * string *
 Definition store_out (s : dstate) : out :=
   OL (map (fun e => OL [OS (fst (fst e)); OS (snd (fst e)); OL (map (fun kv => OL [OS (fst kv); OZ (snd kv)]) (snd e))]) (ds_store s)).
 
-Definition run (p : list (string * pyobj) * list (list dstmt)) : out :=
-  let '(univ, calls) := p in
-  let init := ({| ds_reg := []; ds_store := []; ds_imports := []; ds_dynamic_seen := false |}, []) in
+Definition run (p : list (string * pyobj) * list centry * list (list dstmt)) : out :=
+  let '(univ, pre, calls) := p in
+  let init := ({| ds_reg := pre; ds_store := []; ds_imports := []; ds_dynamic_seen := false |}, []) in
   let '(sr, outs) := fold_left (fun acc stmts => let '(sr, outs) := acc in
                                                let '(sr', o) := parse_call univ stmts sr in (sr', outs ++ [o]))
                                calls (init, []) in
